@@ -151,6 +151,16 @@ def trash(ctx, rule='C17.R4'):
         texts = [unparse(a, 200) for a in lp.iter.args]
         if not any('wells' in t or '.get()' in t for t in texts):
             continue
+        # local names for the recorded states: `before, after = step.to[0], step.to[1]`
+        for st_ in ast.walk(bake.node):
+            if isinstance(st_, ast.Assign) and len(st_.targets) == 1:
+                tg, val = st_.targets[0], st_.value
+                pairs = list(zip(tg.elts, val.elts)) if isinstance(tg, ast.Tuple) and isinstance(val, ast.Tuple) and \
+                    len(tg.elts) == len(val.elts) else [(tg, val)]
+                for t_, v_ in pairs:
+                    if isinstance(t_, ast.Name) and _re.fullmatch(r"step\.(to|frm)\[[01]\]", unparse(v_, 40)) and \
+                            sum(1 for y in ast.walk(bake.node) if isinstance(y, ast.Name) and y.id == t_.id and isinstance(y.ctx, ast.Store)) == 1:
+                        texts = [_re.sub(rf"\b{t_.id}\b", unparse(v_, 40), t) for t in texts]
         nzip += 1
         norm = [_re.sub(r"\[[01]\]", '[K]', t) for t in texts]
         same = norm[0] == norm[1] and texts[0] != texts[1]
